@@ -55,7 +55,10 @@ TABLE = {
     "two_npu_islands": (3, MIXED), "concat_slices": (3, ROTATE), "shared_weights": (2, ROTATE), "big_fm_u65": (3, FAST),
     "avgpool_chain": (2, ROTATE), "minmax_lrelu": (2, ROTATE), "reshape_fork": (4, MIXED), "widen_ew": (3, ROTATE),
     "lut_mixed": (18, LUT), "shape_out": (42, MIXED), "transpose_perm": (24, ROTATE), "ew_fork": (20, MIXED),
-    "fc1_two_core": (12, TWO_CORE),
+    "fc1_two_core": (12, TWO_CORE), "near_scale": (15, ROTATE),
+    "multi_out_cpu": (24, MIXED), "slice_masks": (40, MIXED),
+    "rank_sweep": (252, ROTATE),        # 21 kinds x ranks 1-6 x the two last-axis variants (gen_ranksweep.py)
+    "shared_consts": (15, ROTATE),      # 12 axes of harness/netgen_shared.py (one per weight re-laying rewrite) + 3 drawn
 }
 DEFAULT = (3, ROTATE)
 
